@@ -386,8 +386,8 @@ Lemma count_le_length {A} (p : A -> bool) l : count p l <= Z.of_nat (length l).
 Proof. unfold count. apply inj_le. induction l as [|a t IH]; simpl; [lia|]. destruct (p a); simpl; lia. Qed.
 Lemma count_numbered_snd {A} (p : A -> bool) (l : list A) : forall n, count (fun x => p (snd x)) (numbered n l) = count p l.
 Proof.
-  unfold count. induction l as [|a t IH]; intros n; simpl; [reflexivity|]. specialize (IH (N.succ n)).
-  destruct (p a); simpl; lia.
+  unfold count. intros n. f_equal. revert n. induction l as [|a t IH]; intros n; simpl; [reflexivity|].
+  destruct (p a); simpl; rewrite IH; reflexivity.
 Qed.
 
 Lemma own_tombstones_accepted defs me h rm rid r :
@@ -404,8 +404,8 @@ Proof.
     unfold peer_store in Hin. cbn [s_edges] in Hin. apply in_map_iff in Hin. destruct Hin as [q [<- Hq]].
     unfold edge_hit in Hhit. cbn [ed_src ed_ent ed_label ed_dest ed_cdate stored_ref e_src e_ent e_label e_dest e_cdate] in Hhit.
     apply andb_prop in Hhit. destruct Hhit as [Hhit _]. apply andb_prop in Hhit. destruct Hhit as [_ Hdest].
-    apply N.eqb_eq in Hdest. assert (Hfst : fst q = fst p) by lia.
-    rewrite (numbered_fst_inj rm 0%N q p Hq Hp Hfst). cbn [stored_ref e_author]. rewrite Hmine. reflexivity. }
+    apply N.eqb_eq in Hdest. assert (Hfst : fst q = fst p) by (eapply N.add_cancel_l; exact Hdest).
+    rewrite (numbered_fst_inj rm 0%N q p Hq Hp Hfst). unfold stored_ref. cbn [e_author]. cbn beta in Hmine. destruct p as [i k]. cbn [snd] in *. rewrite Hmine. reflexivity. }
   rewrite Ht. exact Hself.
 Qed.
 
@@ -442,7 +442,7 @@ Proof.
       rewrite (count_all _ _ Hall) in Hown.
       assert (Hub : t <= Z.of_nat (length rm)).
       { unfold t. eapply Z.le_trans; [apply count_le_length|]. unfold peer_store. cbn [s_edges]. rewrite !map_length, length_numbered. lia. }
-      lia.
+      apply Z.le_antisymm; assumption.
   - assert (Hnv : validate_node (build_rooms defs) (sent_row me h) (old_room_of h) (old_author_of h) = false).
     { apply not_true_is_false. intros E. apply Hag in E. apply Hsingle in E. congruence. }
     rewrite Hnv. cbn. contradiction.
